@@ -355,7 +355,8 @@ class EIG(BaseRoutine):
             logger.debug(f"Parameter sweep: round={count}")
 
             for idx, (param, pos) in enumerate(zip(params, positions)):
-                param.v[pos] = val[idx]
+                # `Model.set` also refreshes `dae.Tf` and `TDS.Teye` if `param` is a time constant
+                param.owner.set(param.name, idxes[idx], 'v', val[idx])
                 logger.debug(f"Set {param.name} = {param.v[pos]}")
 
             self.system.TDS.init()
